@@ -147,9 +147,12 @@ func unsupported(format string, args ...interface{}) {
 }
 
 type Exec struct {
+	assignBinds []Value       // captured-variable bindings of the closure whose contract is being applied
+	assignFn    *ssa.Function
 	cutArr  map[*ssa.Call][]workItem
 	cutSpec map[*ssa.Call]*CutSpec
 	cutDone map[*ssa.Call]bool
+	cutFired map[string]bool
 	prog      *Program
 	db        *ContractDB
 	d         *Decls
